@@ -44,35 +44,26 @@ theorem rules_setProps (props : List (String × Val α)) : ∀ p : P α, (setPro
   | nil => intro p; rfl
   | cons kv t ih => intro p; simp only [List.foldl_cons]; rw [ih, rules_setAttribute]
 
-theorem outer_applyRules (rules : List (Rule α)) : ∀ p : P α, outer (applyRules o p rules) = outer p := by
-  unfold applyRules
-  induction rules with
+/-- a fold of state transformers that each preserve a projection preserves it -/
+theorem foldl_preserves {β γ : Type} (f : P α → β → P α) (g : P α → γ) (h : ∀ p b, g (f p b) = g p)
+    (l : List β) : ∀ p : P α, g (l.foldl f p) = g p := by
+  induction l with
   | nil => intro p; rfl
-  | cons r t ih =>
-    intro p; simp only [List.foldl_cons]; rw [ih]
-    split
-    · exact outer_setProps o _ _
-    · rfl
+  | cons a t ih => intro p; simp only [List.foldl_cons]; rw [ih, h]
 
-theorem layers_applyRules (rules : List (Rule α)) : ∀ p : P α, (applyRules o p rules).layers = p.layers := by
-  unfold applyRules
-  induction rules with
-  | nil => intro p; rfl
-  | cons r t ih =>
-    intro p; simp only [List.foldl_cons]; rw [ih]
-    split
-    · exact layers_setProps o _ _
-    · rfl
+theorem applyRules_nil (p : P α) : applyRules o p [] = p := rfl
 
-theorem rules_applyRules (rules : List (Rule α)) : ∀ p : P α, (applyRules o p rules).rules = p.rules := by
+theorem outer_applyRules (rules : List (Rule α)) (p : P α) : outer (applyRules o p rules) = outer p := by
   unfold applyRules
-  induction rules with
-  | nil => intro p; rfl
-  | cons r t ih =>
-    intro p; simp only [List.foldl_cons]; rw [ih]
-    split
-    · exact rules_setProps o _ _
-    · rfl
+  exact foldl_preserves _ outer (fun q (nr : Nat × Rule α) => outer_setProps o nr.2.props q) _ p
+
+theorem layers_applyRules (rules : List (Rule α)) (p : P α) : (applyRules o p rules).layers = p.layers := by
+  unfold applyRules
+  exact foldl_preserves _ (fun q => q.layers) (fun q (nr : Nat × Rule α) => layers_setProps o nr.2.props q) _ p
+
+theorem rules_applyRules (rules : List (Rule α)) (p : P α) : (applyRules o p rules).rules = p.rules := by
+  unfold applyRules
+  exact foldl_preserves _ (fun q => q.rules) (fun q (nr : Nat × Rule α) => rules_setProps o nr.2.props q) _ p
 
 theorem outer_applyPlain (p : P α) (a : Attr α) : outer (applyPlain o p a) = outer p := by
   cases a with
@@ -103,13 +94,6 @@ theorem rules_applyStyle (p : P α) (a : Attr α) : (applyStyle o p a).rules = p
   cases a with
   | plain k v => rfl
   | style props => exact rules_setProps o props p
-
-/-- a fold of state transformers that each preserve a projection preserves it -/
-theorem foldl_preserves {β γ : Type} (f : P α → β → P α) (g : P α → γ) (h : ∀ p b, g (f p b) = g p)
-    (l : List β) : ∀ p : P α, g (l.foldl f p) = g p := by
-  induction l with
-  | nil => intro p; rfl
-  | cons a t ih => intro p; simp only [List.foldl_cons]; rw [ih, h]
 
 theorem outer_setStyling (p : P α) (attrs : List (Attr α)) : outer (setStyling o p attrs) = outer p := by
   unfold setStyling
